@@ -190,6 +190,9 @@ impl<'a> Printer<'a> {
     }
 
     fn name(&self, v: VarId) -> String {
+        if self.p.var(v).kind == VarKind::SelfVar {
+            return "self".to_string();
+        }
         if let Some(n) = &self.plan.names {
             if let Some(s) = n.get(v as usize) {
                 if !s.is_empty() {
